@@ -21,6 +21,12 @@ fn has_ascii_graphemes(string: &str) -> bool {
     string.is_ascii() && memmem::find(string.as_bytes(), b"\r\n").is_none()
 }
 
+/// verification hook: the private representation decision, for the in-crate harnesses
+#[cfg(nucleo_verif)]
+pub(crate) fn verif_has_ascii_graphemes(string: &str) -> bool {
+    has_ascii_graphemes(string)
+}
+
 /// A UTF-32 encoded (char array) string that is used as an input to (fuzzy) matching.
 ///
 /// This is mostly intended as an internal string type, but some methods are exposed for
